@@ -152,6 +152,10 @@ def run(loader, R, tier):
     R.rule("R44.4", "SBML printed name is an SBML parser key constructing "
                     "the same class")
     R.rule("R44.5", "result definitely assigned in every handler")
+    R.rule("R44.7", "no function reachable from a MathML handler resets the "
+                    "document stream")
+    R.rule("R44.8", "SBML parser builds names from the text as written, not "
+                    "from the case-folded look-up key")
     R.rule("R44.6", "string positions taken from find*() are tested against "
                     "npos before substr/erase/at")
     R.assumptions += [
@@ -267,6 +271,117 @@ def run(loader, R, tier):
                             fkey(f), show(n)[:70]))
             _sym.visit_guarded(f["body"], cb6)
     R.floor("find-derived string positions in the printers", nfind, 1)
+
+    # ---------------------------------------------------------------- R44.7
+    # the MathML printer accumulates the whole document in one member
+    # stream; a function that resets that stream must not be reachable from
+    # a handler (nested sub-expressions are printed through handlers, so a
+    # reset in mid-document drops the opening tags written so far while the
+    # enclosing handlers still append their closing tags).
+    mm = [f for f in functions_of(prog, XML_PRINTER)]
+    by_u = {f["u"]: f for f in mm}
+
+    def resets_stream(f):
+        for n in walk(f["body"]):
+            if n.get("k") == "mcall" and (n.get("o") or {}).get("k") \
+                    == "mem" and EM.is_stream(n["o"].get("t")) \
+                    and ((n.get("n") == "str" and n.get("a"))
+                         or n.get("n") in ("clear", "seekp", "swap")):
+                if n.get("n") == "clear":
+                    continue            # clears error flags only
+                return n
+            if n.get("k") in ("bin", "op") and n.get("op") == "=" \
+                    and n.get("a") and n["a"][0].get("k") == "mem" \
+                    and EM.is_stream(n["a"][0].get("t")):
+                return n
+        return None
+    resetters = {f["u"]: resets_stream(f) for f in mm}
+    resetters = {u: n for u, n in resetters.items() if n is not None}
+
+    def reaches_reset(f, seen=None):
+        seen = seen or set()
+        if f["u"] in seen:
+            return None
+        seen.add(f["u"])
+        for n in walk(f["body"]):
+            if n.get("k") in ("mcall", "call") and n.get("u") in by_u:
+                g = by_u[n["u"]]
+                if g["u"] in resetters:
+                    return (n, g)
+                r = reaches_reset(g, seen)
+                if r:
+                    return r
+        return None
+    nh7 = 0
+    for f in mm:
+        if f.get("n") != "bvisit":
+            continue
+        nh7 += 1
+        key = fkey(f)
+        R.instance("R44.7", key)
+        if f["u"] in resetters:
+            R.violation("R44.7", key, prog.loc(f),
+                        "%s resets the document stream in the middle of a "
+                        "document" % key)
+            continue
+        r = reaches_reset(f)
+        if r:
+            n, g = r
+            R.violation(
+                "R44.7", key, prog.loc(f, n.get("l")),
+                "%s prints a nested expression through `%s`, and %s resets "
+                "the document stream (`%s`): everything written so far is "
+                "dropped while the enclosing handlers still append their "
+                "closing tags" % (key, show(n)[:40], fkey(g),
+                                  show(resetters[g["u"]])[:40]))
+    R.floor("MathML handlers checked for stream resets", nh7, 30)
+
+    # ---------------------------------------------------------------- R44.8
+    # SBML round trip of user-defined names: the SBML parser looks names up
+    # case-insensitively through a lower-cased copy; that copy may be used
+    # for look-ups only — an expression must be built from the name as
+    # written, otherwise parse_sbml(sbml(F(x))) is f(x).
+    n8 = 0
+    for f in prog.functions.values():
+        if not (f.get("cls") or "").startswith("SymEngine::SbmlParser") \
+                or not f.get("body") or f.get("dependent"):
+            continue
+        folded = set()
+        for d in walk(f["body"]):
+            if d.get("k") == "decl":
+                for v in d.get("v", ()):
+                    if v.get("i") is not None and any(
+                            x.get("k") == "call"
+                            and x.get("n") in ("lowercase", "tolower",
+                                               "uppercase", "toupper")
+                            for x in walk(v["i"])):
+                        folded.add(v["n"])
+        if not folded:
+            continue
+        for n in walk(f["body"]):
+            if n.get("k") == "call" and n.get("u") \
+                    and (prog.header(n["u"]).get("qn") or "").startswith(
+                        "SymEngine::") \
+                    and prog.header(n["u"]).get("n") in (
+                        "function_symbol", "symbol", "make_rcp", "constant",
+                        "dummy"):
+                used = {x["n"] for a in n.get("a", ()) for x in walk(a)
+                        if x.get("k") == "ref" and x.get("n") in folded}
+                n8 += 1
+                key = "%s@%s" % (short(f["qn"]), n.get("l"))
+                R.instance("R44.8", key, sample={"call": show(n)[:60],
+                                                 "uses_folded_name":
+                                                 sorted(used)})
+                if used:
+                    R.violation(
+                        "R44.8", short(f["qn"]), prog.loc(f, n.get("l")),
+                        "%s builds `%s` from the case-folded look-up key "
+                        "`%s`: a user-defined name written with capitals "
+                        "does not survive parse_sbml(sbml(e))" % (
+                            short(f["qn"]), show(n)[:50],
+                            sorted(used)[0]))
+    R.floor("name-constructing calls in SbmlParser methods that fold case",
+            n8, 1)
 
     # ---------------------------------------------------------------- R44.3
     sites = 0
